@@ -9,9 +9,9 @@ import ClairModel.Model.Manager
     hist <v|e> <name> <fp>                      prior update operation (oldest first)
     upd <i> <name> <p|d|e> <cfg> <getok> <fmode> <src> <parseok> <vulns> <deleted> <storeok> <ctxaware>
     fac <f> <ok> <members>
-    run <r> <batch> <factories>
+    run <r> <batch> <gc> <factories>
   Events (answer = what the machine says the code does):
-    begin|acquire|launch|wait|drained|ret|cancel <r>
+    begin|acquire|launch|wait|drained|ret|cancel|gctry|gc|gcdone <r>
     try|getops|fetch|parse|store|status|done <r> <i>
 -/
 namespace Driver.C13
@@ -20,14 +20,19 @@ open ClairModel.Manager
 structure DState where
   scripts : List (Nat × Script) := []
   facs : List (Nat × Fac) := []
-  runs : List (Nat × Nat × List Nat) := []
+  runs : List (Nat × Nat × Bool × List Nat) := []
   st : State := init []
 
 def defaultScript : Script :=
   { name := 0, kind := .plain, cfg := 0, getOk := true, fmode := 0, src := 0, parseOk := true,
     vulns := [], deleted := [], storeOk := true, ctxAware := false }
 
+/-- The program-counter slot of the GC section; its "updater" only carries
+    the lock key `garbage-collection` (name 1). -/
+def gcInst : Nat := 1000000
+
 def script (d : DState) (i : Nat) : Script :=
+  if i == gcInst then { defaultScript with name := 1 } else
   match d.scripts.lookup i with
   | some s => s
   | none => defaultScript
@@ -40,12 +45,16 @@ def fac (d : DState) (f : Nat) : Fac :=
 def mkEnv (d : DState) : Env :=
   let name := fun i => (script d i).name
   let facsOf := fun r => match d.runs.lookup r with
-    | some (_, fs) => fs.map (fac d)
+    | some (_, _, fs) => fs.map (fac d)
     | none => []
   { upd := fun i => (script d i).toUpd,
     batch := fun r => match d.runs.lookup r with
-      | some (b, _) => b
+      | some (b, _, _) => b
       | none => 0,
+    gc := fun r => match d.runs.lookup r with
+      | some (_, g, _) => g
+      | none => false,
+    gcInst := gcInst,
     toRun := fun r => plan name (fun i => (script d i).cfg != 2) (facsOf r),
     stubSets := fun r => planStubs name (facsOf r) }
 
@@ -74,6 +83,9 @@ def parseEv (ws : List String) : Option Ev :=
   | ["store", r, i] => do pure (.store (← r.toNat?) (← i.toNat?))
   | ["status", r, i] => do pure (.status (← r.toNat?) (← i.toNat?))
   | ["done", r, i] => do pure (.done (← r.toNat?) (← i.toNat?))
+  | ["gctry", r] => do pure (.gcTry (← r.toNat?))
+  | ["gc", r] => do pure (.gc (← r.toNat?))
+  | ["gcdone", r] => do pure (.gcDone (← r.toNat?))
   | _ => none
 
 def showCsv (l : List Nat) : String :=
@@ -128,8 +140,8 @@ def decl (d : DState) (ws : List String) : Option DState :=
     pure { d with scripts := (← i.toNat?, sc) :: d.scripts }
   | ["fac", f, ok, ms] => do
     pure { d with facs := (← f.toNat?, ⟨← bool? ok, ← csv ms⟩) :: d.facs }
-  | ["run", r, b, fs] => do
-    pure { d with runs := (← r.toNat?, ← b.toNat?, ← csv fs) :: d.runs }
+  | ["run", r, b, g, fs] => do
+    pure { d with runs := (← r.toNat?, ← b.toNat?, ← bool? g, ← csv fs) :: d.runs }
   | _ => none
 
 def stepLine (d : DState) (l : String) : DState × String :=
